@@ -48,6 +48,9 @@ enum Place {
     SibB,
     /// sibling with OID, imported under ANOTHER name + the right OID (match by OID only)
     SibC,
+    /// imported from module Mid, which does not define it but imports it from module Origin
+    /// (a re-exported reference: an import chain over two hops)
+    Chain,
 }
 
 struct Gen<'a, 'b> {
@@ -186,12 +189,13 @@ pub fn run(ctx: &mut RunCtx<'_>) -> Option<Violation> {
     // which literals become references, and where the reference lives
     let places: Vec<Place> = slots
         .iter()
-        .map(|_| match l.draw(8) {
+        .map(|_| match l.draw(9) {
             0..=2 => Place::Literal,
             3 | 4 => Place::Local,
             5 => Place::SibA,
             6 => Place::SibB,
-            _ => Place::SibC,
+            7 => Place::SibC,
+            _ => Place::Chain,
         })
         .collect();
     let name_of = |i: usize| format!("vref{}", i);
@@ -223,8 +227,8 @@ pub fn run(ctx: &mut RunCtx<'_>) -> Option<Violation> {
     let c_alias = "SibCRenamed";
     let main_with = |body: String| -> String {
         let mut m = String::from("Main DEFINITIONS AUTOMATIC TAGS ::= BEGIN\n");
-        let (a, b, c) = (of_place(Place::SibA), of_place(Place::SibB), of_place(Place::SibC));
-        if !(a.is_empty() && b.is_empty() && c.is_empty()) {
+        let (a, b, c, ch) = (of_place(Place::SibA), of_place(Place::SibB), of_place(Place::SibC), of_place(Place::Chain));
+        if !(a.is_empty() && b.is_empty() && c.is_empty() && ch.is_empty()) {
             m.push_str("  IMPORTS\n");
             if !a.is_empty() {
                 m.push_str(&format!("    {} FROM SibA\n", a.iter().map(|i| name_of(*i)).collect::<Vec<_>>().join(", ")));
@@ -234,6 +238,9 @@ pub fn run(ctx: &mut RunCtx<'_>) -> Option<Violation> {
             }
             if !c.is_empty() {
                 m.push_str(&format!("    {} FROM {} {}\n", c.iter().map(|i| name_of(*i)).collect::<Vec<_>>().join(", "), c_alias, OID_C));
+            }
+            if !ch.is_empty() {
+                m.push_str(&format!("    {} FROM Mid\n", ch.iter().map(|i| name_of(*i)).collect::<Vec<_>>().join(", ")));
             }
             m.push_str("  ;\n");
         }
@@ -271,6 +278,11 @@ pub fn run(ctx: &mut RunCtx<'_>) -> Option<Violation> {
     let sib_a = sib("SibA", "", Place::SibA, 0);
     let sib_b = sib("SibB", OID_B, Place::SibB, 0);
     let sib_c = sib("SibC", OID_C, Place::SibC, 0);
+    let origin = sib("Origin", "", Place::Chain, 0);
+    let mid = format!(
+        "Mid DEFINITIONS AUTOMATIC TAGS ::= BEGIN\n  IMPORTS {} FROM Origin;\n  midOwn INTEGER ::= 1\nEND\n",
+        of_place(Place::Chain).iter().map(|i| name_of(*i)).collect::<Vec<_>>().join(", ")
+    );
     // D13 scenario: a second module with the SAME NAME as SibB (or as the alias SibC is imported under)
     // but another OID - or none at all - and other values: the OID named by the import must win
     let decoy_kind = l.draw(6);
@@ -306,6 +318,10 @@ pub fn run(ctx: &mut RunCtx<'_>) -> Option<Violation> {
     }
     if !of_place(Place::SibC).is_empty() {
         env.push(("SibC", &sib_c));
+    }
+    if !of_place(Place::Chain).is_empty() {
+        env.push(("Mid", &mid));
+        env.push(("Origin", &origin));
     }
     if let Some(d) = &decoy {
         env.push(("decoy", d));
@@ -375,7 +391,7 @@ pub fn run(ctx: &mut RunCtx<'_>) -> Option<Violation> {
         ctx.counters.inc("c12.schemas_with_references_resolved_in_every_order");
     }
     ctx.counters.add("c12.references", nrefs as u64);
-    for (pl, k) in [(Place::Local, "local"), (Place::SibA, "import_by_name"), (Place::SibB, "import_by_name_and_oid"), (Place::SibC, "import_by_oid_only")] {
+    for (pl, k) in [(Place::Local, "local"), (Place::SibA, "import_by_name"), (Place::SibB, "import_by_name_and_oid"), (Place::SibC, "import_by_oid_only"), (Place::Chain, "import_chain_over_two_modules")] {
         if !of_place(pl).is_empty() {
             ctx.counters.inc(&format!("probe.reference_{k}"));
         }
@@ -393,6 +409,9 @@ pub fn run(ctx: &mut RunCtx<'_>) -> Option<Violation> {
                 return None;
             }
             // (with a decoy loaded, dropping the real sibling leaves a same-named module: skip)
+            if dropped == "Mid" && false {
+                return None;
+            }
             if (dropped == "SibB" || dropped == "SibC") && decoy.is_some() {
                 return None;
             }
